@@ -15,8 +15,9 @@ use std::rc::Rc;
 struct Obs {
     text: Vec<(String, bool, usize, usize)>,                       // chunk, last, a, b
     comments: Vec<(String, usize, usize)>,
-    tags: Vec<(String, Vec<(String, String, Option<(usize, usize)>, Option<(usize, usize)>, String)>, usize, usize, String)>,
+    tags: Vec<(String, Vec<(String, String, Option<(usize, usize)>, Option<(usize, usize)>, String, bool, Option<String>)>, usize, usize, String)>,   // attrs: name, value, name loc, value loc, name(), has_attribute(name()), get_attribute(name())
     sink: Vec<(Option<&'static Encoding>, Vec<u8>)>,               // set_encoding(e) | chunk
+    probes: Vec<(usize, bool, bool)>,                              // element start, has_attribute("naïve") before and after the other lookups
 }
 struct Sink(Rc<RefCell<Obs>>);
 impl OutputSink for Sink {
@@ -70,7 +71,12 @@ pub fn run_case(line: &str) {
     let settings = Settings::new()
         .append_element_content_handler((Cow::Owned("*".parse::<Selector>().unwrap()), ElementContentHandlers::default().element(move |e: &mut Element<'_, '_>| {
             let (a, b) = rng(e.source_location());
-            let attrs = e.attributes().iter().map(|x| (x.name_preserve_case(), x.value(), x.name_source_location().map(rng), x.value_source_location().map(rng), x.name())).collect();
+            let mut attrs: Vec<(String, String, Option<(usize, usize)>, Option<(usize, usize)>, String, bool, Option<String>)> =
+                e.attributes().iter().map(|x| (x.name_preserve_case(), x.value(), x.name_source_location().map(rng), x.value_source_location().map(rng), x.name(), false, None)).collect();
+            let p1 = e.has_attribute("na\u{ef}ve");
+            for at in attrs.iter_mut() { at.5 = e.has_attribute(&at.4); at.6 = e.get_attribute(&at.4); }
+            let p2 = e.has_attribute("na\u{ef}ve");
+            o1.borrow_mut().probes.push((a, p1, p2));
             o1.borrow_mut().tags.push((e.tag_name_preserve_case(), attrs, a, b, e.tag_name()));
             if let Some(s) = &ins2 { e.before(s, ContentType::Html); }
             Ok(())
@@ -104,6 +110,7 @@ pub fn run_case(line: &str) {
     drop(rw);
     let o = obs.borrow();
     let mut bad: Vec<String> = vec![];
+    let mut bad16: Vec<String> = vec![];       // by-name attribute lookups (property C16; also exposes state shared between rewriters, C18)
     let mut bad14: Vec<String> = vec![];       // text chunk ranges (property C14); a node with broken ranges is not used for the C13 comparisons
     if !all_ok { bad.push("a call failed or panicked".into()); }
     // ---- the encoding in force at an input offset: enc0 until the end of the first effective <meta charset> start tag
@@ -178,7 +185,23 @@ pub fn run_case(line: &str) {
             while k < *b && !matches!(input[k], b'\t' | b'\n' | 0x0c | b'\r' | b' ' | b'/' | b'>') { k += 1; }
             let reference = dec(*a, a + 1, k);
             if *name != reference { bad.push(format!("tag at {a}: tag_name_preserve_case() = {:?}, decode of its bytes = {:?}", trunc(name), trunc(&reference))); }
-            for (an, av, nl, vl, aln) in attrs {
+            for (an, _av, nl, _vl, aln, has, got) in attrs {
+                // by-name lookup of a listed attribute whose name round-trips through the encoding in force (validator-refused names skipped)
+                if let Some((x, y)) = nl {
+                    let raw = &input[(*x).min(input.len())..(*y).min(input.len())];
+                    let ok_chars = !aln.is_empty() && !aln.chars().any(|c| matches!(c, ' ' | '\t' | '\n' | '\r' | '\u{c}' | '/' | '>' | '=' | '\u{fffd}'));
+                    if ok_chars && enc_at(*a).encode(an).0.as_ref() == raw {
+                        let first = attrs.iter().find(|t| t.4 == *aln).map(|t| t.1.clone());
+                        if !*has || *got != first { bad16.push(format!("attribute {:?} at {x}..{y} is listed but has_attribute = {has} and get_attribute = {:?} (first listed value {:?})", trunc(an), got.as_ref().map(|g| trunc(g)), first.as_ref().map(|g| trunc(g)))); }
+                    }
+                }
+            }
+            if let Some((_, p1, p2)) = o.probes.iter().find(|p| p.0 == *a) {
+                let present = attrs.iter().any(|t| t.4 == "na\u{ef}ve" && t.2.is_some_and(|(x, y)| enc_at(*a).encode(&t.0).0.as_ref() == &input[x.min(input.len())..y.min(input.len())]));
+                let ambiguous = attrs.iter().any(|t| t.4 == "na\u{ef}ve") && !present;
+                if !ambiguous && (*p1 != present || *p2 != present) { bad16.push(format!("has_attribute(\"na\u{ef}ve\") = {p1}/{p2} on the tag at {a}, attribute present: {present}")); }
+            }
+            for (an, av, nl, vl, aln, _, _) in attrs {
                 if *aln != an.to_ascii_lowercase() { bad.push(format!("attribute at {a}: name() = {:?} is not the ASCII-lowercased name_preserve_case() {:?}", trunc(aln), trunc(an))); }
                 if let Some((x, y)) = nl { let r = dec(*a, *x, *y); if *an != r { bad.push(format!("attribute name at {x}..{y}: {:?} vs decode {:?}", trunc(an), trunc(&r))); } }
                 if let Some((x, y)) = vl { let r = dec(*a, *x, *y); if *av != r { bad.push(format!("attribute value at {x}..{y}: {:?} vs decode {:?}", trunc(av), trunc(&r))); } }
@@ -220,6 +243,7 @@ pub fn run_case(line: &str) {
     else if !empties.is_empty() { outln!("X c12-bad zero-length chunk in a failed run"); }
     for b in bad.iter().take(3) { outln!("X c13-bad {}", b.replace('\n', " ")); }
     for b in bad14.iter().take(3) { outln!("X c14-bad {}", b.replace('\n', " ")); }
+    for b in bad16.iter().take(3) { outln!("X c16-bad {}", b.replace('\n', " ")); }
     outln!("X c13-stats enc={} nodes={} chunks={} long={} nonascii={} malformed={} tags={} comments={} switched={}", enc0.name(), n_nodes, n_chunks, n_long, n_nonascii, n_malformed,
         o.tags.len(), o.comments.len(), matches!(switch, Some((p, e)) if p != usize::MAX && e != enc0) as u8);
     outln!(".");
